@@ -1,13 +1,13 @@
 (* C02: witness that the canonical string is not injective on the current code (recorded finding
    cis-trans-on-ring-closure-double-bond).  GENERATED terms: the molecule smiles('C/C1=C/C=C/CCCCCC1'), the same molecule with
-   both cis/trans labels inverted, their _chiral_morgan weights and stereo registries as printed by harness/checks/C02.py. *)
+   the cis/trans label of the ring-closure double bond 2=3 inverted, their _chiral_morgan weights and stereo registries as printed by harness/checks/C02.py. *)
 From Coq Require Import ZArith List String Bool.
 From Model Require Import PyBase Graph PeriodicTable Stereo Writer.
 Import ListNotations.
 Open Scope Z_scope.
 
 Definition rf_g1 : mol := (mkMol [(1, (mkAtom 6 None 0 false (Some 3) None)); (2, (mkAtom 6 None 0 false (Some 0) None)); (3, (mkAtom 6 None 0 false (Some 1) None)); (4, (mkAtom 6 None 0 false (Some 1) None)); (5, (mkAtom 6 None 0 false (Some 1) None)); (6, (mkAtom 6 None 0 false (Some 2) None)); (7, (mkAtom 6 None 0 false (Some 2) None)); (8, (mkAtom 6 None 0 false (Some 2) None)); (9, (mkAtom 6 None 0 false (Some 2) None)); (10, (mkAtom 6 None 0 false (Some 2) None)); (11, (mkAtom 6 None 0 false (Some 2) None))] [(1, [(2, (mkBond 1 None))]); (2, [(1, (mkBond 1 None)); (3, (mkBond 2 (Some false))); (11, (mkBond 1 None))]); (3, [(2, (mkBond 2 (Some false))); (4, (mkBond 1 None))]); (4, [(3, (mkBond 1 None)); (5, (mkBond 2 (Some false)))]); (5, [(4, (mkBond 2 (Some false))); (6, (mkBond 1 None))]); (6, [(5, (mkBond 1 None)); (7, (mkBond 1 None))]); (7, [(6, (mkBond 1 None)); (8, (mkBond 1 None))]); (8, [(7, (mkBond 1 None)); (9, (mkBond 1 None))]); (9, [(8, (mkBond 1 None)); (10, (mkBond 1 None))]); (10, [(9, (mkBond 1 None)); (11, (mkBond 1 None))]); (11, [(10, (mkBond 1 None)); (2, (mkBond 1 None))])]).
-Definition rf_g2 : mol := (mkMol [(1, (mkAtom 6 None 0 false (Some 3) None)); (2, (mkAtom 6 None 0 false (Some 0) None)); (3, (mkAtom 6 None 0 false (Some 1) None)); (4, (mkAtom 6 None 0 false (Some 1) None)); (5, (mkAtom 6 None 0 false (Some 1) None)); (6, (mkAtom 6 None 0 false (Some 2) None)); (7, (mkAtom 6 None 0 false (Some 2) None)); (8, (mkAtom 6 None 0 false (Some 2) None)); (9, (mkAtom 6 None 0 false (Some 2) None)); (10, (mkAtom 6 None 0 false (Some 2) None)); (11, (mkAtom 6 None 0 false (Some 2) None))] [(1, [(2, (mkBond 1 None))]); (2, [(1, (mkBond 1 None)); (3, (mkBond 2 (Some true))); (11, (mkBond 1 None))]); (3, [(2, (mkBond 2 (Some true))); (4, (mkBond 1 None))]); (4, [(3, (mkBond 1 None)); (5, (mkBond 2 (Some true)))]); (5, [(4, (mkBond 2 (Some true))); (6, (mkBond 1 None))]); (6, [(5, (mkBond 1 None)); (7, (mkBond 1 None))]); (7, [(6, (mkBond 1 None)); (8, (mkBond 1 None))]); (8, [(7, (mkBond 1 None)); (9, (mkBond 1 None))]); (9, [(8, (mkBond 1 None)); (10, (mkBond 1 None))]); (10, [(9, (mkBond 1 None)); (11, (mkBond 1 None))]); (11, [(10, (mkBond 1 None)); (2, (mkBond 1 None))])]).
+Definition rf_g2 : mol := (mkMol [(1, (mkAtom 6 None 0 false (Some 3) None)); (2, (mkAtom 6 None 0 false (Some 0) None)); (3, (mkAtom 6 None 0 false (Some 1) None)); (4, (mkAtom 6 None 0 false (Some 1) None)); (5, (mkAtom 6 None 0 false (Some 1) None)); (6, (mkAtom 6 None 0 false (Some 2) None)); (7, (mkAtom 6 None 0 false (Some 2) None)); (8, (mkAtom 6 None 0 false (Some 2) None)); (9, (mkAtom 6 None 0 false (Some 2) None)); (10, (mkAtom 6 None 0 false (Some 2) None)); (11, (mkAtom 6 None 0 false (Some 2) None))] [(1, [(2, (mkBond 1 None))]); (2, [(1, (mkBond 1 None)); (3, (mkBond 2 (Some true))); (11, (mkBond 1 None))]); (3, [(2, (mkBond 2 (Some true))); (4, (mkBond 1 None))]); (4, [(3, (mkBond 1 None)); (5, (mkBond 2 (Some false)))]); (5, [(4, (mkBond 2 (Some false))); (6, (mkBond 1 None))]); (6, [(5, (mkBond 1 None)); (7, (mkBond 1 None))]); (7, [(6, (mkBond 1 None)); (8, (mkBond 1 None))]); (8, [(7, (mkBond 1 None)); (9, (mkBond 1 None))]); (9, [(8, (mkBond 1 None)); (10, (mkBond 1 None))]); (10, [(9, (mkBond 1 None)); (11, (mkBond 1 None))]); (11, [(10, (mkBond 1 None)); (2, (mkBond 1 None))])]).
 Definition rf_t1 : stabs := (mkStabs [] [] [] [((2, 3), (1, 4, (Some 11), None)); ((4, 5), (3, 6, None, None))] [(2, (2, 3)); (3, (2, 3)); (4, (4, 5)); (5, (4, 5))] [(2, (2, 3)); (3, (2, 3)); (4, (4, 5)); (5, (4, 5))] [(2, 3); (3, 2); (4, 5); (5, 4)]).
 Definition rf_t2 : stabs := (mkStabs [] [] [] [((2, 3), (1, 4, (Some 11), None)); ((4, 5), (3, 6, None, None))] [(2, (2, 3)); (3, (2, 3)); (4, (4, 5)); (5, (4, 5))] [(2, (2, 3)); (3, (2, 3)); (4, (4, 5)); (5, (4, 5))] [(2, 3); (3, 2); (4, 5); (5, 4)]).
 Definition rf_w1 : list (Z * Z) := [(1, 1); (2, 10); (3, 5); (4, 6); (5, 2); (6, 9); (7, 3); (8, 7); (9, 8); (10, 11); (11, 4)].
@@ -16,10 +16,10 @@ Definition rf_order : list Z := [1; 2; 11; 10; 9; 8; 7; 6; 5; 4; 3].
 Definition rf_fun (l : list (Z * Z)) : Z -> Z := fun n => match zget l n with Some x => x | None => 0 end.
 Definition rf_tb : Z -> Z := fun n => match index_of rf_order n with Some i => i | None => 0 end.
 
-(* same atoms, same bonds, the two cis/trans labels differ: different molecules, one canonical string *)
+(* same atoms, same bonds, the cis/trans label of bond 2=3 differs: different molecules, one canonical string *)
 Lemma canonical_injective_refuted :
   mol_eqb rf_g1 rf_g2 = false /\
   list_eqb (pair_eqb Z.eqb atom_eqb) (m_atoms rf_g1) (m_atoms rf_g2) = true /\
   smiles_text rf_g1 (rf_fun rf_w1) rf_tb default_opts rf_t1 = Ok ("C/C=1/CCCCCC/C=C/C=1"%string, rf_order) /\
-  smiles_text rf_g2 (rf_fun rf_w2) rf_tb default_opts rf_t2 = Ok ("C/C=1/CCCCCC/C=C\C=1"%string, rf_order).
+  smiles_text rf_g2 (rf_fun rf_w2) rf_tb default_opts rf_t2 = Ok ("C/C=1/CCCCCC/C=C/C=1"%string, rf_order).
 Proof. repeat split; vm_compute; reflexivity. Qed.
